@@ -36,32 +36,32 @@ package utilities
 //
 //@ func NewCharReferenceInterval
 //@   requires start <= end
-//@   ensures[C17,C13,C09] fresh(result) && result.start == start && result.end == end && result.reference == reference
+//@   ensures[C17,C13,C09,C16] fresh(result) && result.start == start && result.end == end && result.reference == reference
 //@   assigns nothing
 //@   nopanic
 //
 //@ func (c *CharReferenceInterval) InRange
 //@   requires c != nil
-//@   ensures[C17,C13,C09] result == (c.start <= symbol && symbol <= c.end)
+//@   ensures[C17,C13,C09,C16] result == (c.start <= symbol && symbol <= c.end)
 //@   assigns nothing
 //@   nopanic
 //
 //@ func (c *CharReferenceInterval) Reference
 //@   requires c != nil
-//@   ensures[C17,C13,C09] result == c.reference
+//@   ensures[C17,C13,C09,C16] result == c.reference
 //@   assigns nothing
 //@   nopanic
 //
 //@ func NewCharReferenceMap
-//@   ensures[C17,C13,C09] fresh(result) && mapInv(result)
-//@   ensures[C17,C13,C09] forall ch rune :: view(result, ch) == nil
+//@   ensures[C17,C13,C09,C16] fresh(result) && mapInv(result)
+//@   ensures[C17,C13,C09,C16] forall ch rune :: view(result, ch) == nil
 //@   assigns nothing
 //@   nopanic
 //
 //@ func (c *CharReferenceMap) Clear
 //@   requires c != nil
-//@   ensures[C17,C13,C09] mapInv(c)
-//@   ensures[C17,C13,C09] forall ch rune :: view(c, ch) == nil
+//@   ensures[C17,C13,C09,C16] mapInv(c)
+//@   ensures[C17,C13,C09,C16] forall ch rune :: view(c, ch) == nil
 //@   assigns c.initialInterval, c.otherIntervals
 //@   nopanic
 //@   loop 0
@@ -72,8 +72,8 @@ package utilities
 // "the most recent registration whose range contains it"; a registration reaches up to U+FFFE
 //@ func (c *CharReferenceMap) AddInterval
 //@   requires mapInv(c) && 0 <= start && start <= end && start <= 0xfffe
-//@   ensures[C17,C13,C09] mapInv(c)
-//@   ensures[C17,C13,C09] forall ch rune :: view(c, ch) ==
+//@   ensures[C17,C13,C09,C16] mapInv(c)
+//@   ensures[C17,C13,C09,C16] forall ch rune :: view(c, ch) ==
 //@       ((start <= ch && ch <= min(end, 0xfffe)) ? reference : old(view(c, ch)))
 //@   assigns c.initialInterval[*], c.otherIntervals
 //@   nopanic
@@ -90,14 +90,14 @@ package utilities
 //
 //@ func (c *CharReferenceMap) AddDefaultInterval
 //@   requires mapInv(c)
-//@   ensures[C17,C13,C09] mapInv(c)
-//@   ensures[C17,C13,C09] forall ch rune :: view(c, ch) == ((0 <= ch && ch <= 0xfffe) ? reference : old(view(c, ch)))
+//@   ensures[C17,C13,C09,C16] mapInv(c)
+//@   ensures[C17,C13,C09,C16] forall ch rune :: view(c, ch) == ((0 <= ch && ch <= 0xfffe) ? reference : old(view(c, ch)))
 //@   assigns c.initialInterval[*], c.otherIntervals
 //@   nopanic
 //
 //@ func (c *CharReferenceMap) Lookup
 //@   requires mapInv(c)
-//@   ensures[C17,C13,C09] result == view(c, symbol)
+//@   ensures[C17,C13,C09,C16] result == view(c, symbol)
 //@   assigns nothing
 //@   nopanic
 //@   loop 0
